@@ -71,7 +71,8 @@ ModelAgrees(line) ==
 
 LineOK(line) ==
    LET bad == Failed(line) IN
-   /\ (line.c.entry = "file_rel_default" \/ ModelAgrees(line)
+   \* (LoaderImpl models ONE load on a fresh Loader: with file_abs_prior the documents come out of the cache as earlier loads left them -- LoaderReuse's matter, F-C02-7)
+   /\ (line.c.entry \in {"file_rel_default", "file_abs_prior"} \/ ModelAgrees(line)
         \/ CSVWrite("%1$s", <<ToJson([case |-> line.case, shape |-> line.c.shape, kind |-> line.c.kind, site |-> line.c.site,
                                         load |-> line.load])>>, "fidelity.ndjson"))
    /\ bad = {} \/ CSVWrite("%1$s", <<ToJson([case |-> line.case, c |-> line.c, failed |-> bad, load |-> line.load,
